@@ -46,7 +46,10 @@ pub fn native_case(nat: &mut NativeEnv, case: &FunCase, info: &ArchInfo, rep: &m
             return;
         }
         Err(e) => {
-            rep.machinery(format!("generated program {} is rejected: {e:?}", case.name));
+            // a well-typed-by-construction program that the front end rejects is C15's business
+            // (its positive side reports it); here the program is outside the premise
+            rep.count("skipped_rejected_by_front_end", 1);
+            rep.notes.push(format!("front end rejects {} ({})", case.name, format!("{e:?}").chars().take(80).collect::<String>()));
             return;
         }
     };
